@@ -166,9 +166,38 @@ pub fn shard_run(tier: &str, seed: u64, replay_case: Option<usize>, shard: Shard
                 _ => Req::GetSnapshot,
             };
             descr.push(format!("#{k} c{c} {} ({} bytes)", req.name(), size));
+            // one request of every sixth history arrives while another process holds the database's
+            // write lock for longer than the whole lock-wait budget: it may fail (and then must not
+            // have written anything, at any crash point) or be served once the lock is free
+            let lock_held = hi % 6 == 4 && k == 2;
+            let holder = if lock_held {
+                let dbp = db.clone();
+                let h = std::thread::spawn(move || {
+                    if let Ok(con) = rusqlite::Connection::open(&dbp) {
+                        if con.execute_batch("BEGIN IMMEDIATE").is_ok() {
+                            std::thread::sleep(std::time::Duration::from_millis(5400));
+                            let _ = con.execute_batch("ROLLBACK");
+                        }
+                    }
+                });
+                std::thread::sleep(std::time::Duration::from_millis(120));
+                cov.hit("write-lock-held-beyond-the-lock-wait-budget".into());
+                Some(h)
+            } else {
+                None
+            };
             vfs::mark(&format!("inv {k}"));
             let resp = subj.exec(clients[*c], &req);
             vfs::mark(&format!("ret {k}"));
+            if let Some(h) = holder {
+                let _ = h.join();
+                if matches!(resp, Resp::Error(_)) {
+                    cov.hit("write-lock-held-beyond-the-lock-wait-budget:request-failed".into());
+                    states.push(snap(&subj));
+                    keep_image(&subj, &mut state_images);
+                    continue;
+                }
+            }
             if let Resp::AddOk { vid, .. } = &resp {
                 latest[*c] = *vid;
                 chain[*c].push(*vid);
